@@ -24,6 +24,10 @@ _WHOLE_ADAPTERS = {"Rev", "Enumerate", "Peekable", "Cloned", "Copied", "Map", "F
 
 
 def _is_asmline_next(t, fn=None):
+    return is_whole_next(t, fn, "AsmLine")
+
+
+def is_whole_next(t, fn=None, elem="AsmLine"):
     """`next()` on an iterator that visits *every* statement: a slice/Vec iterator over AsmLine, possibly under
     element-preserving adapters. Filter/Skip/Take/StepBy/... visit a subset and do not count; neither does an
     iterator made from a sub-slice."""
@@ -32,7 +36,7 @@ def _is_asmline_next(t, fn=None):
         return False
     tys = t.get("arg_tys") or [""]
     ty = tys[0]
-    if "AsmLine" not in ty:
+    if elem not in ty:
         return False
     if not re.search(r"(slice::iter::Iter(Mut)?|vec::into_iter::IntoIter)<", ty):
         return False
@@ -193,3 +197,31 @@ class StageAnalysis:
                     changed = True
             if not changed:
                 break
+
+
+ADHOC_RX = re.compile(r"miette::(miette_diagnostic::MietteDiagnostic::new|eyreish::.*Report(<.*>)?::(msg|new|from_adhoc)|eyreish::.*::msg$)")
+
+
+def adhoc_fns(prog):
+    """bin-crate functions/closures that construct an error of their own (`bail!`, `miette!`): name -> [spans]"""
+    out = {}
+    for n, f in prog.fns.items():
+        if not n.startswith("bin::") or f.bkind != "fn":
+            continue
+        for b, t, c in f.calls():
+            if c and ADHOC_RX.search(c):
+                out.setdefault(n, []).append((b, t.get("sp")))
+    return out
+
+
+def adhoc_in_call(prog, adhoc, t):
+    """does this call terminator construct an ad-hoc error itself, or hand the callee a closure that does?"""
+    c = callee_of(t)
+    if c and ADHOC_RX.search(c):
+        return c
+    for cl in t["f"].get("closures", []):
+        nm = cl[3:] if cl.startswith("fn:") else cl
+        if nm in adhoc:
+            return nm
+    return None
+
